@@ -205,9 +205,16 @@ def rule_coverage(R):
                                 for y in walk(b.operand_term(a)):
                                     if y[0] == "field" and y[1][0] == "downcast" and y[1][2] == v:
                                         used.add(y[2])
+                    # an arm that falls back on the generic iteration over self covers everything
+                    if any(x in b.calls and b.calls[x].is_("Properties::<'a>::iter", "iter_inner") and
+                           _chain0(b, b.calls[x]) for x in arm):
+                        used = set(want.get(v, used))
                     out[v] = used
                 return out
         return None
+
+    def _chain0(b, c):
+        return bool(c.args) and chain(b.operand_term(c.args[0]))[0] == ("param", "self")
     own = arms(vf)
     if own is not None:
         for v, w in want.items():
